@@ -18,12 +18,13 @@ var c16Specs = []famSpec{
 	{Family: "simp-chain", FreshQ: 20000, FreshT: 2000000},
 	{Family: "simp-rand", FreshQ: 20000, FreshT: 2000000},
 	{Family: "simp-float", FreshQ: 10000, FreshT: 1000000},
+	{Family: "simp-long", FreshQ: 400, FreshT: 20000},
 }
 
 func init() {
 	register(&run.Prop{
 		ID: "C16",
-		Rule: "case = path + epsilon + closed flag. simp-zigzag: zig-zags of amplitude around epsilon; simp-chain: near-collinear chains (exactly collinear runs, +-1 nudges) at magnitudes 10..2^29 including closed wrap-around; simp-rand: random paths; simp-float: SimplifyPathD/PathsD. " +
+		Rule: "case = path + epsilon + closed flag. simp-zigzag: zig-zags of amplitude around epsilon; simp-chain: near-collinear chains (exactly collinear runs, +-1 nudges) at magnitudes 10..2^29 including closed wrap-around; simp-rand: random paths; simp-float: SimplifyPathD/PathsD; simp-long: noisy closed curves of 200..3000 vertices with planted exact mid-points (cases run one after another in a worker process, so state kept between calls on long paths is exercised). " +
 			"Checked: output is a subsequence; open ends kept; < 4 points returned as is; no retained vertex with exact perpendicular distance (128-bit cross^2 vs eps^2*len^2) clearly below epsilon from the line through its retained neighbours while > 2 remain; " +
 			"epsilon 0 keeps the exact closed area; retained index set invariant under translation and under scaling path and epsilon by 2^k; Paths variants equal per-path calls. " +
 			"Non-trivial = at least one vertex removed and at least 3 kept; distinct by input digest.",
@@ -85,6 +86,24 @@ func simpInput(id run.CaseID) (Path, float64, bool) {
 		if r.Chance(0.4) {
 			k := r.Intn(len(p))
 			p = append(append(Path{}, p[k:]...), p[:k]...)
+		}
+	case "simp-long": // 200..3000 vertices: a noisy closed curve with planted exact mid-points (also as the very last vertex)
+		R := gen.PickOf(r, int64(20000), 1<<20, 1<<27)
+		eps = gen.PickOf(r, 0, 0, 0.5, 2, float64(R)/5000, float64(R)/300)
+		s, _ := gen.BigNR(r, 200, 3000, []int64{R})
+		base := s[0]
+		for i, v := range base {
+			p = append(p, v)
+			nx := base[(i+1)%len(base)]
+			if r.Chance(0.15) && (v.X+nx.X)%2 == 0 && (v.Y+nx.Y)%2 == 0 {
+				p = append(p, Pt{X: (v.X + nx.X) / 2, Y: (v.Y + nx.Y) / 2})
+			}
+		}
+		if r.Chance(0.3) { // make the last vertex the exact mid-point of its neighbours
+			a, b := p[len(p)-1], p[0]
+			if (a.X+b.X)%2 == 0 && (a.Y+b.Y)%2 == 0 {
+				p = append(p, Pt{X: (a.X + b.X) / 2, Y: (a.Y + b.Y) / 2})
+			}
 		}
 	default:
 		R := gen.PickOf(r, int64(20), 1000, 1<<20, 1<<28)
